@@ -6,8 +6,9 @@ from vlib.core import ROOT, run_lines
 
 MODULES = ["TLVerif.Props.C18"]
 THEOREMS = ["TLVerif.Props.C18." + t for t in [
-    "fill_terminates", "fill_preserves_depth", "fill_valid", "fill_functional", "saturated_increase_leaks",
-    "fill_diverges_nonproductive", "fill_diverges_union", "fill_diverges_leak", "loop_never_fills", "peano_never_fills", "leak_never_fills",
+    "fill_terminates", "fill_preserves_depth", "fill_valid", "fill_functional", "increase_decrease_neutral",
+    "leak_shape_guard", "leak_shape_terminates",
+    "fill_diverges_nonproductive", "fill_diverges_union", "loop_never_fills", "peano_never_fills",
     "weights_cumulative", "depth_range", "limit_pow2", "letters_count", "increase_sites", "newRG_depth"]]
 SOURCES = ["TLVerif.Codec.Random", "TLVerif.Codec.RandomLemmas", "TLVerif.Codec.RandomTerm", "TLVerif.Codec.Ops.Rand"]
 
@@ -15,6 +16,9 @@ SOURCES = ["TLVerif.Codec.Random", "TLVerif.Codec.RandomLemmas", "TLVerif.Codec.
 # negation of a guard of `fill_terminates` (evaluated by the model on the exported descriptor, `codec.rcert`)
 K_LOOP = "L8:FillRandom-unbounded-recursion-on-non-productive-type:kernel.go-FindCycle-result-discarded"
 K_UNION = "C18-union:FillRandom-of-a-union-never-calls-IncreaseDepth:qt_union.qtpl"
+# former known finding, repaired in the repository (IncreaseDepth no longer saturates): not listed any more, so a diverging run
+# of this class (productive, ranked, but the recursion that remains at the depth limit is not finite / the depth leaks again)
+# is a VIOLATION with its input
 K_LEAK = "C18-leak:DecreaseDepth-after-saturated-IncreaseDepth-lowers-the-depth:basictl.go-IncreaseDepth/DecreaseDepth"
 
 
@@ -31,7 +35,7 @@ def rcerts(c, model, sc):
     lines = ["codec.rcert %s %d" % (sc.sid, inst["idx"]) for inst, it in sc.items]
     out = run_lines(model, lines, prefix=ra.prefix(sc))
     res = {}
-    tot = c.extra.setdefault("certificates", {"evaluated": 0, "closed": 0, "ranked": 0, "capfree": 0, "termination_guard": 0, "validity_guard": 0, "productive": 0})
+    tot = c.extra.setdefault("certificates", {"evaluated": 0, "closed": 0, "ranked": 0, "satok": 0, "termination_guard": 0, "validity_guard": 0, "productive": 0})
     for (inst, it), a in zip(sc.items, out):
         if not a.startswith("ok "):
             c.proof_failures.append({"stage": "certificate", "schema": sc.sid, "type": inst["tlname"], "detail": a})
@@ -41,7 +45,7 @@ def rcerts(c, model, sc):
         tot["evaluated"] += 1
         tot["closed"] += r["closed"]
         tot["ranked"] += r["ranked"] and r["bounded"]
-        tot["capfree"] += r["capfree"]
+        tot["satok"] += r["satok"]
         tot["termination_guard"] += r["guard"] and r["closed"]
         tot["validity_guard"] += r["fillok"] and r["closed"]
         tot["productive"] += r["productive"]
@@ -73,6 +77,11 @@ def run(c):
             continue
         certs = rcerts(c, model, sc)
         witness = sc.sid in ("fr", "fl")
+        if sc.sid == "fr":
+            for inst, it in sc.items:
+                if inst["tlname"] in ("fr.leak", "fr.ok") and not certs.get(inst["idx"], {}).get("guard", False):
+                    c.proof_failures.append({"stage": "certificate", "schema": "fr", "type": inst["tlname"],
+                                             "detail": "the guard of fill_terminates is expected to hold for this shape (leak_shape_guard)"})
         if sc.sid == "fo":
             for inst, it in sc.items:
                 if inst["tlname"].startswith("fo.") and not certs.get(inst["idx"], {}).get("guard", False):
@@ -83,6 +92,8 @@ def run(c):
             n = per
             if sc.sid == "fl":
                 n = 1                         # every run of it ends in a fatal stack overflow (slow)
+            elif inst["tlname"] == "fr.leak":
+                n = 600 if c.thorough else 100          # the shape of the repaired depth leak: must terminate and be tied
             elif witness:
                 n = 2 * per
             elif sc.sid == "fo":
@@ -103,7 +114,7 @@ def run(c):
                     key = K_LOOP
                 elif not (ce.get("ranked", True) and ce.get("bounded", True)):
                     key = K_UNION
-                elif not ce.get("capfree", True):
+                elif not ce.get("satok", True):
                     key = K_LEAK
                 if key:
                     c.oracle_failures.append({"key": key, "what": key.split(":")[0], "input": l})
@@ -121,7 +132,7 @@ def run(c):
             if o.get("again") != "same" or o.get("dirty") != "same":
                 c.oracle_fail(l, "same seed gave a different value (again=%s, into a used object=%s)" % (o.get("again"), o.get("dirty")), l)
     c.extra["known_findings_reproduced"] = sorted(k.split(":")[0] for k in reproduced)
-    for k in (K_LOOP, K_UNION, K_LEAK):
+    for k in (K_LOOP, K_UNION):
         if k not in reproduced and not only:
             c.notes.append("known finding not reproduced in this run: " + k)
     c.extra["rule"] = ("every factory item of every schema × seeds: FillRandom over a counting splitmix64 Rand; compared: number of Rand calls, boxed TL1 "
